@@ -6,9 +6,10 @@
 //!   "gen"      layout21utils::DepOrder::order(items) with `impl DepOrder for G { type Item = usize }`,
 //!              process = push every dependency (graph in a thread_local, `process` is a static fn)
 //!   "raw"      layout21raw::DepOrder::order(&lib): cells = `items` in that order; nodes not in `items`
-//!              are cells that are instantiated but not listed in lib.cells
+//!              are cells that are instantiated but not listed in lib.cells; "nolayout": [ids] = cells with only
+//!              an abstract view (no dependencies)
 //!   "rawproto" the same library through layout21raw::Library::to_proto(): order of plib.cells
-//!   "tetris"   layout21tetris::library::Library::dep_order()
+//!   "tetris"   layout21tetris::library::Library::dep_order(); "dup": m > 0 = cell i is NAMED c{i mod m} (shared names)
 //!   "tproto"   layout21tetris::conv::proto::ProtoExporter::export(&lib): order of plib.cells (CellOrder)
 //!   "place"    layout21tetris::placer::Placer::place on one parent cell whose instances are placed relative to
 //!              each other (out-degree <= 1): order of the parent's instances afterwards (PlaceOrder)
@@ -93,8 +94,19 @@ fn run_gen(g: Vec<Vec<usize>>, items: Vec<usize>) -> Value {
 
 /// raw library: one cell per node, each with a Layout whose instances point at the dependencies' cells
 fn build_raw(g: &[Vec<usize>], items: &[usize]) -> raw::Library {
+    build_raw_with(g, items, &[]).0
+}
+/// `nolayout`: cells that have only an abstract view (they instantiate nothing; the generator gives them no dependencies)
+fn build_raw_with(g: &[Vec<usize>], items: &[usize], nolayout: &[usize]) -> (raw::Library, Vec<Ptr<raw::Cell>>) {
     let ptrs: Vec<Ptr<raw::Cell>> = (0..g.len()).map(|i| Ptr::new(raw::Cell::new(format!("c{}", i)))).collect();
     for (i, deps) in g.iter().enumerate() {
+        if nolayout.contains(&i) {
+            let outline = raw::Polygon {
+                points: vec![raw::Point::new(0, 0), raw::Point::new(4, 0), raw::Point::new(4, 4), raw::Point::new(0, 4)],
+            };
+            ptrs[i].write().unwrap().abs = Some(raw::Abstract::new(format!("c{}", i), outline));
+            continue;
+        }
         let mut layout = raw::Layout::default();
         layout.name = format!("c{}", i);
         for (k, d) in deps.iter().enumerate() {
@@ -112,13 +124,14 @@ fn build_raw(g: &[Vec<usize>], items: &[usize]) -> raw::Library {
     for i in items {
         lib.cells.push(ptrs[*i].clone());
     }
-    lib
+    (lib, ptrs)
 }
 
-fn run_raw(g: Vec<Vec<usize>>, items: Vec<usize>) -> Value {
-    let lib = build_raw(&g, &items);
+fn run_raw(g: Vec<Vec<usize>>, items: Vec<usize>, nolayout: Vec<usize>) -> Value {
+    let (lib, ptrs) = build_raw_with(&g, &items, &nolayout);
     match raw::DepOrder::order(&lib).into_res() {
-        Ok(order) => ok(order.iter().map(|p| id_of(&p.read().unwrap().name)).collect()),
+        // cells are identified by pointer, not by name
+        Ok(order) => ok(order.iter().map(|p| ptrs.iter().position(|q| q == p).map(|i| i as i64).unwrap_or(-1)).collect()),
         Err(e) => err(e),
     }
 }
@@ -132,13 +145,18 @@ fn run_rawproto(g: Vec<Vec<usize>>, items: Vec<usize>) -> Value {
 }
 
 fn build_tetris(g: &[Vec<usize>], items: &[usize]) -> tetris::library::Library {
+    build_tetris_with(g, items, 0).0
+}
+/// `dup` > 0: cell i is named "c{i % dup}", so different cells share names (cells are objects, not names)
+fn build_tetris_with(g: &[Vec<usize>], items: &[usize], dup: usize) -> (tetris::library::Library, Vec<Ptr<tetris::cell::Cell>>) {
     use tetris::cell::Cell;
     use tetris::instance::Instance;
     use tetris::layout::Layout;
     use tetris::outline::Outline;
-    let ptrs: Vec<Ptr<Cell>> = (0..g.len()).map(|i| Ptr::new(Cell::new(format!("c{}", i)))).collect();
+    let nm = |i: usize| if dup > 0 { format!("c{}", i % dup) } else { format!("c{}", i) };
+    let ptrs: Vec<Ptr<Cell>> = (0..g.len()).map(|i| Ptr::new(Cell::new(nm(i)))).collect();
     for (i, deps) in g.iter().enumerate() {
-        let mut layout = Layout::new(format!("c{}", i), 0, Outline::rect(100, 10).unwrap());
+        let mut layout = Layout::new(nm(i), 0, Outline::rect(100, 10).unwrap());
         for (k, d) in deps.iter().enumerate() {
             layout.instances.add(Instance {
                 inst_name: format!("i{}", k),
@@ -154,13 +172,14 @@ fn build_tetris(g: &[Vec<usize>], items: &[usize]) -> tetris::library::Library {
     for i in items {
         lib.cells.push(ptrs[*i].clone());
     }
-    lib
+    (lib, ptrs)
 }
 
-fn run_tetris(g: Vec<Vec<usize>>, items: Vec<usize>) -> Value {
-    let lib = build_tetris(&g, &items);
+fn run_tetris(g: Vec<Vec<usize>>, items: Vec<usize>, dup: usize) -> Value {
+    let (lib, ptrs) = build_tetris_with(&g, &items, dup);
     match lib.dep_order().into_res() {
-        Ok(order) => ok(order.iter().map(|p| id_of(&p.read().unwrap().name)).collect()),
+        // cells are identified by pointer, not by name
+        Ok(order) => ok(order.iter().map(|p| ptrs.iter().position(|q| q == p).map(|i| i as i64).unwrap_or(-1)).collect()),
         Err(e) => err(e),
     }
 }
@@ -270,9 +289,9 @@ fn run(case: &Value) -> Value {
     let (g, items) = parse_graph(case);
     match k {
         "gen" => run_gen(g, items),
-        "raw" => run_raw(g, items),
+        "raw" => run_raw(g, items, case["nolayout"].as_array().map(|a| a.iter().filter_map(|x| x.as_u64().map(|v| v as usize)).collect()).unwrap_or_default()),
         "rawproto" => run_rawproto(g, items),
-        "tetris" => run_tetris(g, items),
+        "tetris" => run_tetris(g, items, case["dup"].as_u64().unwrap_or(0) as usize),
         "tproto" => run_tproto(g, items),
         "place" => run_place(g, items),
         "gds" => run_gds(g, items, case["aref"].as_u64().unwrap_or(0) as usize),
